@@ -260,6 +260,13 @@ func (r *Report) Finish(verifDir string, start time.Time) int {
 	}
 	seed := 0
 	fmt.Sscan(os.Getenv("VERIF_SEED"), &seed)
+	var sens any = []any{}
+	if b, err := os.ReadFile(filepath.Join(verifDir, "evidence", r.Prop+".sensitivity.json")); err == nil {
+		var parsed []any
+		if json.Unmarshal(b, &parsed) == nil {
+			sens = parsed
+		}
+	}
 	ev := map[string]any{
 		"property_id": r.Prop,
 		"tier":        r.Tier,
@@ -281,6 +288,7 @@ func (r *Report) Finish(verifDir string, start time.Time) int {
 			"exhaustive":             true,
 			"info":                   r.Infos,
 			"check_failures":         r.Fatal,
+			"seeded_changes_analysed": sens,
 		},
 		"assumptions": r.Assumptions,
 		"wall_s":      time.Since(start).Seconds(),
